@@ -1,5 +1,5 @@
 SPECIFICATION Spec
-CONSTANT Depth = 3
+CONSTANT Depth = 4
 CONSTANT MaxW = 5
 CONSTANT Small = TRUE
 CONSTRAINT Bound
